@@ -22,7 +22,7 @@ for e in _L:
         "functions": FUNCS, "timeout_quick": 1500, "timeout_thorough": 3600, "mem_gb": 24, "meta": e,
     })
 KANI_FEATURES = {"thorough": ("thorough",)}
-KANI_JOBS = 6
+KANI_JOBS = 8
 
 
 def kani_replay(harness, r, log_dir):
@@ -54,7 +54,7 @@ LEVEL = "other"
 EXPLANATION = ("Bounded model checking (Kani/CBMC) of the real freezer_files.rs against a cfg(kani) POSIX model file system: each harness starts from a valid "
                "on-disk layout with symbolic item bytes, performs one operation (or one crash-cut append + re-open) with symbolic indices/cut lengths and "
                "checks the representation invariant and the byte-for-byte clauses; the invariant makes the steps compose to histories of any length.")
-BOUNDS = {"layouts": "quick: 12 layouts; thorough: every layout with <= 3 items of 1..2 bytes in <= 3 data files (288 harnesses)",
+BOUNDS = {"layouts": "quick: 8 harnesses; thorough: every layout with <= 3 items of 1..2 bytes in <= 3 data files (616 harnesses)",
           "symbolic": "item bytes, retrieve/truncate index, crash cut lengths of data and index file, missing-new-head flag", "unwind": 6,
           "outside": "snappy compression (switched off by the builder option), LRU eviction below open_files_limit, Freezer wrapper (lock file, tip header), items > 2 bytes, > 4 data files"}
 ASSUMPTIONS = ["model file system verif_fs.rs has POSIX semantics (dup shares offsets, writes at current offset, holes zero-filled)",
